@@ -4,6 +4,7 @@ import (
 	"go/ast"
 	"go/parser"
 	"go/token"
+	"go/types"
 	"regexp"
 	"sync"
 )
@@ -244,6 +245,8 @@ func (f *Fn) match(p ast.Expr, e ast.Expr, b Binds) bool {
 	case *ast.MapType:
 		y, ok := e.(*ast.MapType)
 		return ok && f.match(p.Key, y.Key, b) && f.match(p.Value, y.Value, b)
+	case *ast.StructType, *ast.InterfaceType, *ast.FuncType, *ast.ChanType:
+		return types.ExprString(p) == types.ExprString(e)
 	}
 	return false
 }
